@@ -138,5 +138,8 @@ def run(ctx):
     from . import c02
     c02.part_dyne_spec(ctx, pq, quick, random.Random(ctx.seed + 16), pid="C16")
     ctx.tick("dyne_order")
+    # the order in which post-selected modes are listed does not matter (exact law of the sampler, both spellings)
+    c02.part_postselect_order(ctx, pq, quick, random.Random(ctx.seed + 17), pid="C16")
+    ctx.tick("postselect_order")
     ctx.sample({"permutation": perms[0], "gates": [g["name"] + str(g["modes"]) for g in gates[:4]]})
     ctx.assumptions += ["Gaussian and fermionic simulators: relabelling is covered by the ordered-mode-tuple replays of C07 / C17 when those checks are present"]
